@@ -2,6 +2,7 @@ package rules
 
 import (
 	"fmt"
+	"go/constant"
 	"go/token"
 	"regexp"
 	"sort"
@@ -16,6 +17,8 @@ func init() {
 	register(&Spec{
 		ID: "C01",
 		Explanation: "Decides: R1 backtrack-undo pairing — after a child segment matched and its subtree search failed, every path to the next attempt / to giving up restores the remaining path from the value saved before the match and deletes exactly that child's capture (no other key); R2 capture discipline in the segment matcher (key = the segment's name, only when the name is not ignored, value = a prefix of the remaining path; every accepting exit of a parameter kind captured or ignores the name); R3 literal text spliced into a regexp is quoted; R4 handler lookup conformance of Tree.Handler (the handler returned is the lookup of the requested method — or of the 405 key — in the returned node's own map, 404 exactly with a nil node; the matcher returns only nil, its recursion result, or its receiver when the path is consumed and handlers exist); R5 only the segment matcher sets and only the backtracking matcher deletes request parameters below Tree.Handler; R6 first-byte index coherence (the index fast path deletes no capture because the index holds literal children only — that needs a coherent index, = C03.R1/R2); R7 Remove(pattern) drops every handler, so a removed pattern is never reported. " +
+			"R19 (= C13.R10) the And/Or combinators, also with two members answering differently: the path put back is the one read before the first member. " +
+			"R20 every capturing segment the parser builds is remembered for the duplicate-name test before the next piece is parsed. " +
 			"Not decided: that captured text satisfies the regexp / interceptor constraint for all inputs (semantics of regexp and of user functions).",
 		Assumptions: append([]string{"Segment.Match changes ctx.Path and the parameters only when it returns true (checked for captures by R2)"}, commonAssumptions...),
 		Run: func(c *Ctx) {
@@ -40,6 +43,8 @@ func init() {
 			ruleSuffixSearchResumesAtNextByte(c, "R16")
 			ruleRegexpSuffixComparedBytewise(c, "R17")
 			ruleSegmentsAreBuiltFromParsedPieces(c, "R18")
+			ruleCombinators(c, "R19")
+			ruleParameterNamesAreRemembered(c, "R20")
 			rulePoolReleaseOnce(c, "R16")
 		},
 	})
@@ -226,14 +231,14 @@ func ruleBacktrackUndo(c *Ctx, rule string) {
 			if !ok || in.Parent() != f {
 				return false
 			}
-			return returnsRecursion(r, owners)
+			return returnsRecursion(r, owners) && recursionResultTested(r)
 		}
 		target := func(in ssa.Instruction) bool {
 			if in.Parent() == f && isAttempt[in] {
 				return true
 			}
 			if r, ok := in.(*ssa.Return); ok && in.Parent() == f {
-				return !returnsRecursion(r, owners)
+				return !returnsRecursion(r, owners) || !recursionResultTested(r)
 			}
 			return false
 		}
@@ -374,6 +379,42 @@ func returnsRecursion(r *ssa.Return, isBacktracker map[*ssa.Function]bool) bool 
 	return g != nil && isBacktracker[g]
 }
 
+// recursionResultTested: the return hands on a result of the recursion that is known to be a find on this path —
+// the return is behind the non-nil edge of a test of the result (or the true edge of its boolean companion). An
+// untested result handed on may be nil: the child's subtree failed and the scanner gives up without undoing.
+func recursionResultTested(r *ssa.Return) bool {
+	v := r.Results[0]
+	var call ssa.Value = v
+	if ex, ok := v.(*ssa.Extract); ok {
+		call = ex.Tuple
+	}
+	same := func(x ssa.Value) bool {
+		if x == v || x == call {
+			return true
+		}
+		ex, ok := x.(*ssa.Extract)
+		return ok && ex.Tuple == call
+	}
+	return an.DominatedByEdge(r, func(b *ssa.BasicBlock, succ int) bool {
+		return edgeHas(b, succ, func(cond ssa.Value, truth bool) bool {
+			if bare, neg := stripNot(cond); same(bare) {
+				return truth != neg // the boolean companion of the result
+			}
+			x, k, eq, ok := an.CondAtom(cond)
+			if !ok || !same(x) {
+				return false
+			}
+			if k.Value == nil { // compared with nil
+				return eq != truth
+			}
+			if k.Value.Kind() == constant.Bool {
+				return (constant.BoolVal(k.Value) == eq) == truth
+			}
+			return false
+		})
+	})
+}
+
 // childViaIndex: the segment belongs to a child selected through the first-byte index.
 func childViaIndex(c *Ctx, seg ssa.Value) bool {
 	a := c.A
@@ -440,6 +481,9 @@ func ruleCaptureDiscipline(c *Ctx, rule string) {
 					}
 				}
 				return true
+			}
+			if s, isC := strConst(v); isC && s == "" {
+				return true // the empty text is a prefix of every path
 			}
 			t := c.O.Of(v)
 			vs := t.String()
